@@ -61,10 +61,20 @@ def install_capture(mods):
     import traceback as _tb
 
     class TB:
-        @staticmethod
-        def print_exc(*a, **k):
+        """the traceback module as the daemon sees it: what print_exc would write to stderr is kept as an ERROR-level record, everything else is
+        the real module (a tree that formats tracebacks itself - with or without the frames' local variables - logs through the captured logger)"""
+
+        def print_exc(self, *a, **k):
             RECORDS.append((40, _tb.format_exc()))
-    mods['ikesa'].traceback = TB
+
+        def print_exception(self, *a, **k):
+            RECORDS.append((40, ''.join(_tb.format_exception(*a))))
+
+        def __getattr__(self, name):
+            return getattr(_tb, name)
+    for mod in mods.values():
+        if getattr(mod, 'traceback', None) is _tb or mod is mods['ikesa']:
+            mod.traceback = TB()
 
 
 def wire_ids(datagrams):
@@ -264,6 +274,16 @@ def h_failure(kind):
         MX.Xfrm._get_socket = classmethod(lambda cls, groups: sock)
         MNL.time = _t.SimpleNamespace(time=lambda: 1700000000.5)
         MODS['ikesa'].xfrm = MX
+    if kind.startswith('internal_error_install'):
+        # an unexpected (non-protocol) exception while the kernel SAs are installed: the frames below the handler hold the CHILD_SA keys
+        class Broken(symcrypto.RecKernel):
+            def create_sa(self, *a, **k):
+                symcrypto.RecKernel.create_sa(self, *a, **k)
+                raise TypeError('an integer is required (injected internal error)')
+        if kind.endswith('_responder'):
+            p.B.kernel = Broken()
+        else:
+            p.A.kernel = Broken()
     if kind == 'kernel_refusal':
         class Refusing(symcrypto.RecKernel):
             def create_sa(self, *a, **k):
@@ -305,14 +325,82 @@ def h_failure(kind):
     return ['log', kind, p.a.state.name, p.b.state.name, sum(1 for l, _ in RECORDS if l >= 20)]
 
 
+CLI_TOKENS = ('-v', '--verbose', '--verb', '-ni', '--no-indent', '-q', '--quiet', '-qq', '-qqq', '-qqqq', '-d', '--debug', '-ni -ni')
+CLI_VERBOSE = ('-v', '--verbose', '--verb')
+
+
+def h_cli(k):
+    """the daemon's entry script pyikev2.py with an arbitrary command line of k extra options (each arbitrary among CLI_TOKENS; bounded case
+    split): unless a --verbose option is among them, the log level it configures is INFO or higher, i.e. the DEBUG records (the only ones that
+    carry key material, see the other harnesses) are never written"""
+    import logging as _logging
+    import os
+    import runpy
+    import sys
+    import tempfile
+    from symx import core
+    eng = core.engine()
+    picks = []
+    for i in range(k):
+        c = eng.sym_int(f'option{i}', 0, len(CLI_TOKENS) - 1)
+        picks.append(CLI_TOKENS[eng.concretize(c, 0, len(CLI_TOKENS) - 1) if not isinstance(c, int) else c])
+    fd, path = tempfile.mkstemp(suffix='.yaml', dir='/var/tmp')
+    os.write(fd, b'conn:\n  my_addr: 192.168.0.2\n  peer_addr: 192.168.0.1\n  my_auth: {id: a, psk: k}\n  peer_auth: {id: b, psk: k}\n  protect: [{ip_proto: tcp}]\n')
+    os.close(fd)
+    argv = ['pyikev2.py', '-c', path, '-i', '192.168.0.2'] + [t for tok in picks for t in tok.split()]
+    configured, started = [], []
+    ic = MODS['ikesacontroller']
+
+    class StubController:
+        def __init__(self, *a, **kw):
+            pass
+
+        def main_loop(self):
+            started.append(True)
+
+        def close(self):
+            pass
+    saved = (sys.argv, _logging.basicConfig, ic.IkeSaController, sys.stderr, sys.stdout, getattr(_logging, 'indent', None))
+    _logging.basicConfig = lambda **kw: configured.append(kw.get('level', _logging.WARNING))
+    ic.IkeSaController = StubController
+    sys.argv = argv
+    sys.stderr = sys.stdout = open(os.devnull, 'w')
+    outcome = 'ran'
+    try:
+        runpy.run_path(os.path.join(common.REPO, 'pyikev2.py'), run_name='__main__')
+    except SystemExit as ex:
+        outcome = f'exit {ex.code}'
+    except Exception as ex:      # noqa
+        outcome = f'raised {type(ex).__name__}: {ex}'
+    finally:
+        sys.stderr.close()
+        sys.argv, _logging.basicConfig, ic.IkeSaController, sys.stderr, sys.stdout = saved[:5]
+        _logging.indent = saved[5]
+        os.unlink(path)
+    verbose = any(t in CLI_VERBOSE for t in picks)
+    if outcome.startswith('raised'):
+        return {'class': ['cli'], 'violation': f'pyikev2.py {" ".join(argv[5:])}: {outcome}'}
+    if started:
+        if len(configured) != 1:
+            return {'class': ['cli'], 'violation': f'pyikev2.py {" ".join(argv[5:])}: the daemon started with logging configured {len(configured)} times'}
+        if not verbose and configured[0] < _logging.INFO:
+            return {'class': ['cli'], 'violation': f'pyikev2.py {" ".join(argv[5:]) or "(no option)"}: no --verbose option, yet the log level is {configured[0]} '
+                                                   f'(below INFO = {_logging.INFO}): the DEBUG records with all key material are written'}
+    return ['cli', 'started' if started else outcome, bool(verbose)]
+
+
 def build_instances(tier):
     inst = []
+    for k in ((0, 1, 2) if tier == 'quick' else (0, 1, 2, 3)):
+        inst.append(Instance(f'command line with {k} extra options', h_cli, (k,), native=common.native_of(h_cli), engine_kw={'max_ticks': 10 ** 7},
+                             must_reach=[('started', lambda o: o[:2] == ['cli', 'started'])]))
     for suite, sc in (('default', 'init+new@A+rekey@B'), ('default', 'init+ike@A+new@B'), ('pfs', 'init+new@B+rekey@A'), ('ah_tunnel', 'init+rekey@A'),
                       ('ike_dh_retry', 'init+new@A'), ('child_dh_retry', 'init+new@A')) + \
             ((('subset', 'init+new@B'), ('default', 'init+ike@B+rekey@B+new@A')) if tier == 'thorough' else ()):
         inst.append(Instance(f'success {suite} {sc}', h_success, (suite, sc), engine_kw={'max_ticks': 10 ** 7},
                              must_reach=[('records', lambda o: o[:2] == ['log', 'success'] and o[2] > 5)]))
-    for kind in ('wrong_psk_initiator', 'wrong_psk_responder', 'wrong_method', 'no_proposal', 'ts_unacceptable', 'kernel_refusal', 'kernel_refusal_netlink', 'garbage'):
+    for kind in ('wrong_psk_initiator', 'wrong_psk_responder', 'wrong_method', 'no_proposal', 'ts_unacceptable', 'kernel_refusal', 'kernel_refusal_netlink', 'garbage',
+                 'internal_error_install_responder', 'internal_error_install_initiator'):
         inst.append(Instance(f'failure {kind}', h_failure, (kind,), engine_kw={'max_ticks': 10 ** 7},
                              must_reach=[('records', lambda o: o[0] == 'log' and o[-1] > 3)]))
     return inst
